@@ -11,7 +11,7 @@ import threading
 from hypothesis import strategies as st
 
 from vf import lab
-from vf.core import Prop, Outcome
+from vf.core import Prop, Outcome, fd
 
 from deep.api.tracepoint.trigger import build_trigger, Trigger, LineLocation, LocationAction, Location
 from deep.api.tracepoint.tracepoint_config import MetricDefinition
@@ -88,21 +88,21 @@ class C04(Prop):
 
     def strategy(self, tier):
         gap = st.sampled_from(['0', '1ns', 'p-1ns', 'p', 'p+1ns', 'large', 'half'])
-        history = st.fixed_dictionaries({
+        history = fd({
             'mode': st.just('history'),
             'fc': st.sampled_from(FC), 'fp': st.sampled_from(FP),
             'window': st.one_of(st.none(), st.none(), st.tuples(st.integers(0, 3000), st.integers(0, 6000)).map(list)),
             'kind': st.sampled_from(['snapshot', 'snapshot', 'log', 'metric', 'span']),
             'gaps': st.lists(gap, min_size=1, max_size=40 if tier == 'thorough' else 14),
         })
-        overlap = st.fixed_dictionaries({
+        overlap = fd({
             'mode': st.just('overlap'),
             'fc': st.sampled_from(['1', '2', '-1', '3']), 'fp': st.sampled_from(['0', '0', '50', '1000']),
             'n': st.integers(2, 4),
             'at': st.sampled_from(['clock', 'collect', 'collect', 'threads']),
             'nest': st.booleans(),
         })
-        window_args = st.fixed_dictionaries({
+        window_args = fd({
             'mode': st.just('window_args'),
             'end': st.sampled_from(['1', '1000', '5']), 'start': st.sampled_from([None, '1']),
         })
